@@ -176,3 +176,58 @@ def run(prog, chk):
         else:
             chk.fail("R20.4", fn, "flush-mode:%s" % (consts,), "%s calls History::flush(append=%s, unsaved_only=%s) at %s — not one of the reviewed modes "
                      "(append+unsaved-only, or truncate+all)" % ((fn,) + consts + (b.loc(t.line),)))
+    position_cache_rule(prog, chk)
+
+
+POSITIONAL = ("Iterator::skip", "Iterator::take", "Iterator::step_by", "Iterator::nth", "Iterator::skip_while", "Iterator::take_while",
+              "Vector::get", "Index<usize>>::index", "Vector::iter_from", "[T]::get", "Index>::index")
+
+
+def position_cache_rule(prog, chk):
+    """R20.5: every item is considered by flush; if a History method selects items by position using a value cached in a field of
+    History (e.g. `items.iter().skip(self.saved_prefix)`), every method that replaces or shrinks `items` must update that field
+    too — otherwise the cached position points past entries that were never written and they are skipped for good."""
+    from dataflow import flow_back
+    chk.rule("R20.5", "History methods select items by position only through values that every shrinking mutator of `items` maintains "
+                      "(no stale prefix count): flush cannot skip a dirty item because an earlier delete shifted the list")
+    bodies = [b for b in prog.all_bodies({"brush_core"}) if owner(b.name).startswith(H + "::")]
+    chk.floor("R20.5", "History method bodies", len(bodies), 15)
+    shrinkers = {}
+    for b in bodies:
+        st = field_stores(b, "history::History", "items")
+        if st:
+            shrinkers[owner(b.name)] = b
+    chk.floor("R20.5", "methods that replace the item list", len(shrinkers), 3)
+    caches = {}
+    nsel = 0
+    for b in bodies:
+        d = defs_of(b)
+        for bb, t in b.calls():
+            cal = t.best_callee() or t.callee or ""
+            if not cal.endswith(POSITIONAL) or len(t.args) < 2:
+                continue
+            recv = flow_back(b, d, t.args[0], all_args=False)
+            if not any("items" in f.field_path() and any("history::History" in canon(p[2]) for p in f.path if p[0] == 'f') for f in recv):
+                continue
+            nsel += 1
+            for f in flow_back(b, d, t.args[1], all_args=True):
+                for p in f.path:
+                    if p[0] == 'f' and canon(p[2]).endswith("history::History") and p[3] not in ("items", "id_map"):
+                        caches.setdefault(p[3], []).append((owner(b.name), b.loc(t.line), short_name(cal)))
+    chk.note("positional_selections_over_items", nsel)
+    if not caches:
+        chk.ok("R20.5", "no-position-cache", "no History method selects items by a position cached in a field (%d positional selections over `items` examined, "
+               "all by arguments or local counts)" % nsel, function=H + "::flush")
+    for fld, uses in sorted(caches.items()):
+        for m, b in sorted(shrinkers.items()):
+            if field_stores(b, "history::History", fld):
+                chk.ok("R20.5", "maintained:%s@%s" % (fld, m.rsplit("::", 1)[-1]), "updates the cached position", function=m)
+            else:
+                chk.fail("R20.5", m, "position-cache-not-maintained:" + fld,
+                         "%s replaces History.items but does not update `%s`, which %s uses to select items by position (%s at %s): after this call the "
+                         "cached position is stale and entries that were never written are skipped by later saves"
+                         % (m, fld, uses[0][0], uses[0][2], uses[0][1]))
+
+
+def short_name(c):
+    return c.rsplit("::", 2)[-2] + "::" + c.rsplit("::", 1)[-1] if c.count("::") >= 2 else c
